@@ -46,6 +46,8 @@ def plan(tier, seed):
     # pages of one chunk decode independently of each other: no scratch state at module level in the reader modules
     js.append(dict(name="C03-lemma-no-module-buffers", kind="pyfunc", timeout=300,
                    payload=dict(func="vf.pyshim.lemma_c20:no_module_buffers")))
+    from .e2 import ch
+    js.append(ch("C03", "vf/pyshim/h_page.py", "h_read_page_consumes", 60, ["core._read_page"]))
     extra = dict(
         explanation="Bounded symbolic model checking of the decoders' LLVM IR with the argument patterns of their "
                     "call sites in core.py (levels: width 1..3, 4-byte length prefix, item size 1; dictionary "
